@@ -171,6 +171,24 @@ def run(ctx, n_seq=None):
     a = sc.make_message(rng, 0, 2, 3, 'A')
     for b in list(sc.MALFORMED_INSCOPE) + list(sc.MALFORMED_OUT) + [s for _, s in nc.specials()][:40]:
         check_sequence(ctx, a, [(1, b)], 'fixed-bad-line-inside-message')
+    neighbour_slot_cases(ctx)
+
+
+def neighbour_slot_cases(ctx):
+    """A damaged fragment whose (sequence id, channel) differs from an intact multi-part message only in a way a sloppy slot
+    key would confuse (sequence id 0 vs none, channel '' vs 'A', ...) arrives between that message's fragments: the intact
+    message shares no slot with it and must be delivered unchanged."""
+    rng = ctx.rng
+    pairs = [((None, 'A'), ('0', 'A')), ((0, 'A'), ('', 'A')), ((None, 'B'), ('0', 'B')), ((1, 'A'), ('1', 'B')),
+             ((1, ''), ('1', 'A')), ((9, 'A'), ('', 'A')), ((None, ''), ('0', ''))]
+    for (sq, ch), (bsq, bch) in pairs:
+        for nfrag in (2, 3):
+            good = sc.make_message(rng, 0, nfrag, sq, ch, bad_checksums=0)
+            for num in range(1, nfrag + 1):
+                body = f'AIVDM,{nfrag},{num},{bsq},{bch},55P5TL01VIaAL@7WKO@mBplU@<PDhh000000001S;AJ::4A80?4i@E53,0'.encode()
+                bad = b'!' + body + b'*' + format(nc.xor(body) ^ 0x21, '02X').encode()      # stale checksum: damaged on the air
+                for where in range(1, nfrag):
+                    check_sequence(ctx, good, [(where, bad)], 'damaged-fragment-in-neighbour-slot')
 
 
 def hunt(ctx):
